@@ -174,6 +174,9 @@ def _execute(scn):
                                             "twin": t["kind"]}})
                 break
     counters["rate_states_checked"] = n_rate
+    tag = wA.solver.get("tol", "default")
+    for k in [k for k in maxima if k.endswith("_diff_over_tol")]:
+        maxima[f"{k}.{tag}_solver"] = maxima.pop(k)
     counters["update_calls"] = len(wA.log) + len(wB.log)
     counters[f"twin.{t['kind']}"] = 1
     counters["faulted_updates"] = sum(1 for r in wA.log if r.get("fault"))
